@@ -1,6 +1,7 @@
 package main
 
 import (
+	"sync/atomic"
 	"math"
 	"errors"
 	"fmt"
@@ -136,6 +137,8 @@ func c08Results(supplied map[string]any, initial map[string]any) (final map[stri
 
 // (c) error modes: one answer per request of T
 // answers: 0 ok, 1 error without handler, 2 skip, 3 exit, 10+r retry r (9 = retry -1)
+var c08OkForms uint64
+
 func c08Modes(answers []int) (requests, errTraces int, outcome int, log []Ev) {
 	defs, err := ParseDefs(c08Prog().XML(""))
 	must(err)
@@ -154,7 +157,22 @@ func c08Modes(answers []int) (requests, errTraces int, outcome int, log []Ev) {
 		}
 		switch {
 		case a == 0:
-			tt.Do()
+			// an answer without error, in the forms a host may give it: a handler channel that comes along with
+			// no error (empty, or with a mode queued for the case of a failure) changes nothing
+			switch atomic.AddUint64(&c08OkForms, 1) % 4 {
+			case 0:
+				tt.Do()
+			case 1:
+				tt.Do(bpmn.DoWithErrHandle(nil, make(chan bpmn.ErrHandler, 1)))
+			case 2:
+				ch := make(chan bpmn.ErrHandler, 1)
+				ch <- bpmn.ErrHandler{Mode: bpmn.ExitMode}
+				tt.Do(bpmn.DoWithErrHandle(nil, ch))
+			default:
+				ch := make(chan bpmn.ErrHandler, 1)
+				ch <- bpmn.ErrHandler{Mode: bpmn.RetryMode, Retries: 2}
+				tt.Do(bpmn.DoWithErrHandle(nil, ch))
+			}
 		case a == 1:
 			tt.Do(bpmn.DoWithErr(errors.New("boom")))
 		default:
